@@ -17,6 +17,7 @@ def controls(cprog, cfacts):
 def run(ctx, prog, facts, tier):
     PI, _sites = rules_panic.check_parsers(ctx, prog, ['engine::GameState'], 'C15')
     rules_text.check_diagram_tables(ctx, prog)
+    rules_text.check_cell_table(ctx, prog, 'C15.2c')
     rules_text.check_side_letters(ctx, prog)
     rules_text.check_header(ctx, prog, PI)
     rules_text.check_parsed_board_consistent(ctx, prog, 'C15', full=(tier != 'quick'))
